@@ -1341,6 +1341,8 @@ class Engine(CondMixin, Interp):
                             getattr(x, "ctx", None), (ast.Store, ast.Del)
                         ):
                             root = _root_name(x)
+                            if root == "self" and self._private_bookkeeping(fi, x):
+                                continue
                             if root not in fresh:
                                 m = True
             elif isinstance(n, ast.Call):
@@ -1366,6 +1368,18 @@ class Engine(CondMixin, Interp):
                     m = True
         self._summ_cache[fi.qname] = (r, m, a)
         return r, m, a
+
+    def _private_bookkeeping(self, fi: FuncInfo, target: ast.AST) -> bool:
+        """a QUERY of the data model that writes an underscore-private attribute of its own object (a call counter, a memo)
+        does not change the observable tracks state; whether a memo can go stale is decided by the memo-discipline rule"""
+        if fi.cls is None or not (self.P.is_subclass(fi.cls.qname, "Tracks") or fi.cls.name == "FeatureDict"):
+            return False
+        if not (fi.name.startswith(("get_", "has_", "is_", "_get", "_has", "_is")) or fi.name in QUERY_API or "property" in fi.decorators()):
+            return False
+        b = target
+        while isinstance(b, ast.Subscript):
+            b = b.value
+        return isinstance(b, ast.Attribute) and norm(b.value) == "self" and b.attr.startswith("_") and not b.attr.startswith("__")
 
     def should_inline(self, fi: FuncInfo) -> bool:
         if self.depth >= self.INLINE_DEPTH:
